@@ -309,13 +309,21 @@ func (x *Exec) callInterface(call *ast.CallExpr, obj *types.Func, recv *Val, arg
 		if s2.dead {
 			continue
 		}
-		m, _, _ := types.LookupFieldOrMethod(types.NewPointer(n), true, n.Obj().Pkg(), obj.Name())
+		m, index, _ := types.LookupFieldOrMethod(types.NewPointer(n), true, n.Obj().Pkg(), obj.Name())
 		mf, ok := m.(*types.Func)
 		if !ok {
 			oos("type %s lacks method %s", n.Obj().Name(), obj.Name())
 		}
 		s2.note("dynamic type of receiver is %s", n.Obj().Name())
-		x.callFunc(call, mf, &Val{T: recv.T, Ty: types.NewPointer(n)}, args, s2, fr, k)
+		rv := &Val{T: recv.T, Ty: types.NewPointer(n)}
+		var curTy types.Type = n
+		for _, ix := range index[:len(index)-1] {
+			sty := derefType(curTy).Underlying().(*types.Struct)
+			f := sty.Field(ix)
+			rv = x.selectField(s2, rv, f.Name(), nil, func(r *Term) { x.safety(s2, fr, Neq(r, Null), "nil", call.Lparen) })
+			curTy = f.Type()
+		}
+		x.callFunc(call, mf, rv, args, s2, fr, k)
 	}
 }
 
